@@ -10,7 +10,7 @@ import ast
 
 from .events import run_function
 from .fold import EnumRef, Regex, Unfoldable
-from .interp import AV, BASE_TOP, EXT_TOP, UNK, Out, const, dict_av, exc
+from .interp import AV, BASE_TOP, EXT_TOP, UNK, Out, const, dict_av, dslots, exc
 from .terms import PURE_STR_METHODS, T, TermRule, destruct, is_opaque, term_of, tv
 
 MUTATING_METHODS = {"append", "extend", "insert", "pop", "remove", "clear", "sort", "reverse", "update", "setdefault", "popitem", "discard", "add",
@@ -103,6 +103,16 @@ class GenRule(TermRule):
     def call_hook(self, it, st, node, recv, pos, kw):
         f = node.func
         text = ast.unparse(f)
+        sp = kw.get("**")
+        if sp is not None and sp.kind == "dict":
+            # f(**{"a": x, ...}) is f(a=x, ...): a keyword dictionary built first is the same call
+            kw = {k: v for k, v in kw.items() if k != "**"}
+            for k, v in dslots(sp).items():
+                kw.setdefault(k, v)
+            if sp.val[1]:
+                kw["**"] = tv(sp.sym or "?open")
+        if text in ("typing.cast", "cast") and len(pos) == 2:
+            return [Out("normal", st, pos[1])]  # a static-typing no-op
         args = [term_of(p) for p in pos] + [f"{k}={term_of(v)}" for k, v in sorted(kw.items())]
         if text in self.quiet or text.startswith("log."):
             return [Out("normal", st, UNK)]
@@ -165,6 +175,10 @@ class GenRule(TermRule):
                 return None
             if q and q.startswith("urllib3."):
                 leaf = q.rsplit(".", 1)[-1]
+                local = f"{it.module}.{leaf}"
+                if local != q and local in it.m.funcs:
+                    # an imported function whose name collides with one of this module: keep them apart in terms
+                    leaf = q.split(".")[-2] + "." + leaf
                 s = st.copy()
                 if leaf not in self.pure_self:
                     self.ev(s, "call", leaf, *args)
@@ -336,3 +350,39 @@ def consistent(row, assign):
             if none is not None and (val is None) != none:
                 return False, decided
     return True, decided
+
+
+def row_bool(r):
+    """The boolean a row returns (constant, or a value whose truth is known on the row), None if undecided."""
+    if not r.returns:
+        return None
+    if r.o.kind != "return":
+        return None
+    v = r.o.st.view(r.o.val)
+    if v.kind == "const":
+        return bool(v.val) if isinstance(v.val, (bool, int, type(None))) else None
+    return v.truth
+
+
+def check_decision_table(ctx, rule, fi, rows, env_of, spec, what, why=""):
+    """Every returning row must return spec(env) for every completion of the atoms the row leaves undecided.
+    env_of(row) -> {atom: True/False/None}; spec(env) -> bool."""
+    import itertools
+    n = 0
+    for r in rows:
+        if not r.returns:
+            continue
+        n += 1
+        env = env_of(r)
+        val = row_bool(r)
+        names = list(env)
+        want = set()
+        for combo in itertools.product([True, False], repeat=len(names)):
+            e = dict(zip(names, combo))
+            if any(env[k] is not None and env[k] != e[k] for k in names):
+                continue
+            want.add(bool(spec(e)))
+        ok = val is not None and want == {val}
+        desc = ", ".join(f"{k}={v}" for k, v in env.items() if v is not None)
+        ctx.ob(rule, fi.qual, f"{what} row [{desc}] -> {val}", ok, "" if ok else (why + f" (specification gives {sorted(want)} on this row)").strip(), witness=r.witness(), node=fi.node)
+    return n
